@@ -4,9 +4,11 @@ property it stands for (C01/C03/C05/C07/C08/C14, or `model` when it is none of t
 from vlib import *
 import trace_abs
 
-TRACE_PROPS = {"C01", "C03", "C04", "C05", "C06", "C07", "C08", "C09", "C13", "C14"}
+TRACE_PROPS = {"C01", "C02", "C03", "C04", "C05", "C06", "C07", "C08", "C09", "C13", "C14"}
 INBOUND = {"C04", "C13"}
 CONTENT_PROPS = {"C01", "C17"}
+# guards of the model that stand for a clause of another property as well (C02: same identifier / same bytes on retransmission; C09: nothing succeeds after a finished disconnect)
+RELATED = {"C02": ("C03", "C08"), "C09": ("C05",)}
 
 
 def check(ctx, prop, collected):
@@ -15,7 +17,7 @@ def check(ctx, prop, collected):
     if prop in TRACE_PROPS:
         rel += check_engine(ctx, prop, collected, "tracein " if prop in INBOUND else "trace ",
                             trace_abs.abstract_in if prop in INBOUND else trace_abs.abstract,
-                            "Model/TraceIn.lean" if prop in INBOUND else "Model/Trace.lean")
+                            "Model/TraceIn.lean" if prop in INBOUND else "Model/Trace.lean", accept_tags=RELATED.get(prop))
     if prop in CONTENT_PROPS:
         rel += check_engine(ctx, prop, collected, "tracecontent ", trace_abs.abstract_content, "Model/TraceContent.lean", accept_tags=("C17", prop))
     return rel
